@@ -259,9 +259,16 @@ def runnable_model(rng, dtype=torch.float64, allow_conv=True, unsupported=True, 
             kh, kw = rng.randint(1, min(3, H)), rng.randint(1, min(3, W))
             sh, sw = rng.randint(1, 2), rng.randint(1, 2)
             ph, pw = rng.randint(0, 1), rng.randint(0, 1)
-            conv = (MyConv if rng.random() < 0.15 else nn.Conv2d)(c, co, (kh, kw), (sh, sw), (ph, pw), bias=rng.random() < 0.6)
+            pad_arg = (ph, pw)
+            if (sh, sw) == (1, 1) and rng.random() < 0.25:
+                pad_arg = rng.choice(['same', 'valid'])   # torch's string paddings (zero padding; stride 1 only)
+            conv = (MyConv if rng.random() < 0.15 else nn.Conv2d)(c, co, (kh, kw), (sh, sw), pad_arg, bias=rng.random() < 0.6)
+            if isinstance(pad_arg, str):
+                ph = pw = 0
+                if pad_arg == 'same':
+                    H, W = H + kh - 1, W + kw - 1   # so that the size formula below gives H, W back
             layers.append(conv)
-            info['desc'].append(f'conv{c}->{co}k{kh}x{kw}s{sh}x{sw}p{ph}x{pw}b{int(conv.bias is not None)}')
+            info['desc'].append(f'conv{c}->{co}k{kh}x{kw}s{sh}x{sw}p{pad_arg if isinstance(pad_arg, str) else str(ph) + "x" + str(pw)}b{int(conv.bias is not None)}')
             H = (H + 2 * ph - kh) // sh + 1
             W = (W + 2 * pw - kw) // sw + 1
             c = co
@@ -287,6 +294,9 @@ def runnable_model(rng, dtype=torch.float64, allow_conv=True, unsupported=True, 
         feat = rng.randint(1, hi)
         nd = rng.random() < 0.35
         in_shape = ((rng.randint(1, 3), feat) if nd else (feat,))
+        if nd and rng.random() < 0.4:
+            layers.append(SwapLead())   # the first Linear then receives a transposed (non-contiguous) N-d input
+            info['desc'].append('swap')
     nlin = rng.randint(1, max(1, max_layers - (1 if use_conv else 0)))
     for i in range(nlin):
         fo = rng.randint(1, hi)
@@ -316,6 +326,13 @@ def init_params(model, gen, scale=0.7):
         for m in model.modules():
             if isinstance(m, (nn.LayerNorm, nn.BatchNorm2d)) and m.weight is not None:
                 m.weight.add_(1.0)
+
+
+class SwapLead(nn.Module):
+    """swaps the two leading dimensions (batch-first <-> sequence-first): what follows sees a NON-contiguous activation"""
+
+    def forward(self, x):
+        return x.transpose(0, 1)
 
 
 class Shape(tuple):
